@@ -129,3 +129,34 @@ Example C06_vehicle_distances_example :
   end.
 Proof. vm_compute. auto. Qed.
 Print Assumptions C06_vehicle_distances_example.
+
+(* tie to the source, stage 3b: the step-emission loop of reverse_journey.cpp - every guard, every right-hand side, every
+   step argument, and the assignments to the result after the loop - is read from the source AS IT IS NOW by
+   tools/gen_emit.py (gen/Emit.v) and executed by the interpreter of Emit.v; the model computes the same, for all values
+   `tmp` left in the temporaries (1-based stop sequences: `seq_ok`).  D17 was a missing `if (totalDistance != -1)` here *)
+Require Import TrV.Emit.
+From TrV Require Import Proofs.EmitTie.
+Theorem C06_emit_step_skeleton_is_code : forall d p bestdep count st i j nxt tmp, seq_ok j ->
+  emit_step d p bestdep count st i j nxt =
+  st_of (run_emit GE.gen_emit_skel (env_of d p bestdep count i j nxt) (mach_of st tmp)).
+Proof. exact emit_step_skel_tie. Qed.
+Print Assumptions C06_emit_step_skeleton_is_code.
+Theorem C06_emit_loop_skeleton_is_code : forall d p bestdep count js m i, Forall seq_ok js ->
+  st_of (emit_loop_m GE.gen_emit_skel d p bestdep count m i js) = emit_loop d p bestdep count (st_of m) i js.
+Proof. exact emit_loop_skel_tie. Qed.
+Print Assumptions C06_emit_loop_skeleton_is_code.
+Theorem C06_emit_result_mapping_is_code : forall bestdep m,
+  {| rt_dep := bestdep; rt_arr := e_arr (st_of m); rt_ttt := e_arr (st_of m) - bestdep; rt_tdist := e_tdist (st_of m);
+     rt_tivt := e_tivt (st_of m); rt_tivd := e_tivd (st_of m); rt_tnt := e_twalk (st_of m); rt_tntd := e_twalkd (st_of m);
+     rt_nboard := e_ntr (st_of m) + 1; rt_ntransf := (if e_ntr (st_of m) =? -1 then 0 else e_ntr (st_of m));
+     rt_trwalk := e_ttrwalk (st_of m); rt_trdist := e_ttrd (st_of m); rt_acc := e_accw (st_of m); rt_accd := e_accd (st_of m);
+     rt_egr := e_egrw (st_of m); rt_egrd := e_egrd (st_of m); rt_trwait := e_ttrwait (st_of m); rt_fwait := e_accwait (st_of m);
+     rt_twait := e_twait (st_of m); rt_steps := e_steps (st_of m) |}
+  = GE.gen_emit_result bestdep m.
+Proof. exact emit_result_tie. Qed.
+Print Assumptions C06_emit_result_mapping_is_code.
+(* declarations (gen/Consts.v), loop and result assignments together: the route the model emits is the one the source
+   computes as it is written now *)
+Theorem C06_emit_is_code : forall d p bestdep js tmp, Forall seq_ok js -> emit d p bestdep js = emit_code d p bestdep js tmp.
+Proof. exact emit_skel_tie. Qed.
+Print Assumptions C06_emit_is_code.
